@@ -1,0 +1,10 @@
+//go:build verif
+
+package plot
+
+// VerifData exposes the rows and labels computed by (*Plot).data to the
+// verification harness. It is only compiled with the verif build tag.
+func (p *Plot) VerifData() ([][]float64, []string, error) {
+	d, l, err := p.data()
+	return d, l, err
+}
